@@ -8,6 +8,7 @@ import (
 	"io"
 	"math/rand"
 	"os"
+	"strings"
 
 	"github.com/aml-org/amf-custom-validator/pkg/verifhook"
 )
@@ -44,7 +45,17 @@ func runOneshot(in io.Reader, permSeed int64) {
 			} else {
 				res["generate"] = fmt.Sprintf("%x", sha256.Sum256([]byte(code)))
 			}
-			o := validateAt(h.Profile, h.Data, rcOf(h), clockOf(h))
+			data := h.Data
+			if len(h.CtxFiles) > 0 {
+				if dir, err := os.MkdirTemp("", "acvsolo"); err == nil {
+					defer os.RemoveAll(dir)
+					for f, text := range h.CtxFiles {
+						os.WriteFile(dir+"/"+f, []byte(text), 0644)
+					}
+					data = strings.ReplaceAll(data, "__CTX__", dir)
+				}
+			}
+			o := validateAt(h.Profile, data, rcOf(h), clockOf(h))
 			res["validate"] = o.Kind + ":" + fmt.Sprintf("%x", sha256.Sum256([]byte(o.Report)))
 		}()
 		b, _ := json.Marshal(res)
